@@ -1,4 +1,52 @@
+//! C13 — step, iteration and time bounds are enforced as configured.
+//!
+//! `vx-c13 check C13 quick|thorough|--replay <file>`; hidden sub-command `worker` is the child
+//! process that runs the cells (the code under test can abort the process).
+
+mod body;
+mod driver;
+mod oracle;
+mod sched;
+mod worker;
+
+use vx::common::{finish, CheckCtx, Tier};
+
+fn usage() -> ! {
+    eprintln!("usage: vx-c13 check C13 quick|thorough|--replay <file>");
+    std::process::exit(2)
+}
+
 fn main() {
-    eprintln!("MACHINERY-ERROR: not built yet");
-    std::process::exit(2);
+    let args: Vec<String> = std::env::args().collect();
+    if args.len() >= 2 && args[1] == "worker" {
+        worker::worker_main();
+    }
+    if args.len() < 3 || args[1] != "check" {
+        usage();
+    }
+    let id = args[2].as_str();
+    if id != "C13" {
+        eprintln!("MACHINERY-ERROR: vx-c13 only implements C13, not {}", id);
+        std::process::exit(2);
+    }
+    let tier_arg = args
+        .get(3)
+        .cloned()
+        .or_else(|| std::env::var("VERIF_TIER").ok())
+        .unwrap_or_else(|| "quick".to_string());
+    if tier_arg == "--replay" {
+        let path = match args.get(4) {
+            Some(p) => p,
+            None => usage(),
+        };
+        std::process::exit(driver::replay(path));
+    }
+    let tier = match tier_arg.as_str() {
+        "quick" => Tier::Quick,
+        "thorough" => Tier::Thorough,
+        _ => usage(),
+    };
+    let ctx = CheckCtx::new(id, tier);
+    let res = driver::run_tier(&ctx, tier.is_thorough());
+    finish(&ctx, res)
 }
